@@ -32,6 +32,39 @@ func backThrough(y T) ([]float64, bool) {
 	return ge, true
 }
 
+// backThroughFan: like backThrough, but the tensor may feed two consumers of unequal depth that
+// reconverge: fan 1: (y*G) + y, fan 2: y + (y*G); the effective upstream weighting is then G + 1.
+func backThroughFan(y T, fan int) ([]float64, bool) {
+	if fan == 0 {
+		return backThrough(y)
+	}
+	dims := vrt.Dims(y)
+	G, ge := mk("g", dims, false)
+	yg, err := y.Mul(G)
+	vrt.Assert("weighting product accepted", err == nil)
+	if err != nil {
+		return nil, false
+	}
+	var root T
+	if fan == 1 {
+		root, err = yg.Add(y)
+	} else {
+		root, err = y.Add(yg)
+	}
+	vrt.Assert("reconverging sum accepted", err == nil)
+	if err != nil {
+		return nil, false
+	}
+	if !backprop("fan-out", root) {
+		return nil, false
+	}
+	up := make([]float64, len(ge))
+	for k := range up {
+		up[k] = ge[k] + 1
+	}
+	return up, true
+}
+
 // checkGrad asserts the gradient state of operand x against the reference VJP.
 func checkGrad(label string, x T, tracked bool, dims []int, want []float64) {
 	g := x.Gradient()
